@@ -77,8 +77,13 @@ TInv == /\ Ev.e = "inv"
              [on |-> TRUE, op |-> Ev.op, a |-> Ev,
               seen |-> IF Ev.op \in KeyedOps THEN {Strip(kv[Ev.k])} ELSE {},
               seenAll |-> IF Ev.op = "range"
-                          THEN [i \in 1 .. N |-> {Strip(kv[i])} \cup
-                                  (IF \E u \in 1 .. Len(pend) : u # Ev.t /\ TouchedBy(u, i) THEN {Unstable} ELSE {})]
+                          THEN [i \in 1 .. N |-> {Strip(kv[i])}
+                                  \cup (IF \E u \in 1 .. Len(pend) : u # Ev.t /\ TouchedBy(u, i) THEN {Unstable} ELSE {})
+                                  \* a call still in flight has published in the hash index but possibly
+                                  \* not yet in the ordered one: the scan may still meet the previous state
+                                  \cup {Strip(pend[u].pre) : u \in {x \in 1 .. Len(pend) :
+                                            x # Ev.t /\ pend[x].on /\ pend[x].op \in Mutating
+                                            /\ pend[x].a.k = i /\ (pend[x].pubbed \/ pend[x].reaped)}}]
                           ELSE <<>>,
               npub |-> 0,                       \* publications on its key by OTHER calls meanwhile
               pubbed |-> FALSE, reaped |-> FALSE, pre |-> S!NoRec, post |-> S!NoRec]]
